@@ -347,6 +347,17 @@ PROGRAMS = [
     ([(2, False), (2, False)], [(4, False)],
      [_set(0, 0, 4, 5), ("switch", IN(0), [((1,), [("if", [(IN(1), [_set(0, 0, 1, 0)])], [_set(0, 1, 2, 1)])]),
                                             (None, [_set(0, 2, 4, IN(1))])])]),
+    # a Default / Case / Else body that ENDS with an else-less If (or If/Elif): the pending If belongs to that body
+    ([(2, False), (1, False)], [(4, False), (2, False)],
+     [("switch", IN(0), [((1,), [_set(0, 0, 4, 1)]), (None, [_set(1, 0, 2, 1), ("if", [(IN(1), [_set(0, 0, 4, 3)])], None)])])]),
+    ([(2, False), (1, False), (1, False)], [(4, False)],
+     [("switch", IN(0), [((1,), [_set(0, 0, 4, 1), ("if", [(IN(1), [_set(0, 0, 2, 2)]), (IN(2), [_set(0, 2, 4, 3)])], None)]),
+                         ((2,), [("if", [(IN(2), [_set(0, 0, 4, 9)])], None)]),
+                         (None, [("if", [(IN(1), [_set(0, 0, 4, 7)]), (IN(2), [_set(0, 0, 4, 8)])], None)])]),
+      _set(0, 3, 4, IN(1))]),
+    ([(1, False), (1, False), (2, False)], [(4, False)],
+     [("if", [(IN(0), [_set(0, 0, 4, 1)])], [("switch", IN(2), [(None, [("if", [(IN(1), [_set(0, 0, 4, 5)])], None)])])]),
+      ("switch", IN(2), [((0,), [_set(0, 0, 1, 1)]), (None, [("switch", IN(2), [((3,), []), (None, [("if", [(IN(1), [_set(0, 1, 3, 3)])], None)])])])])]),
 ]
 
 
